@@ -265,6 +265,9 @@ _EXT_EXC_PARENTS = {
 }
 
 
+# stdlib names that are the same literal on every platform the package supports
+_EXT_LITERALS = {"os.pardir": "..", "os.curdir": ".", "os.path.pardir": "..", "os.path.curdir": ".", "os.extsep": "."}
+
 _CONTAINER_MUTATORS = {"append", "extend", "insert", "update", "setdefault", "pop", "popitem", "clear", "add", "discard", "remove"}
 
 
@@ -1131,6 +1134,8 @@ class Interp:
                 lit = self._literal_global(r[1], name, r[2])
                 return lit if lit is not None else ("global", f"{r[1].name}:{name}")
             if r[0] == "ext":
+                if r[1] in _EXT_LITERALS:
+                    return const(_EXT_LITERALS[r[1]])
                 return ("ext", r[1])
             if r[0] == "module":
                 return ("module", r[1])
@@ -1201,6 +1206,8 @@ class Interp:
             if isinstance(r, tuple) and r[0] == "ext":
                 return ("ext", r[1])
         if b[0] == "ext":
+            if f"{b[1]}.{name}" in _EXT_LITERALS:
+                return const(_EXT_LITERALS[f"{b[1]}.{name}"])
             return ("ext", f"{b[1]}.{name}")
         if b[0] == "cls":
             try:
@@ -1485,8 +1492,11 @@ class Interp:
         elif isinstance(f, ast.Attribute):
             v = f.value
             is_self = isinstance(v, ast.Name) and v.id in ("self", "cls") and self._name_key(v.id) in st.env and st.env[self._name_key(v.id)] in (("param", "self"), ("param", "cls"))
+            # `self` of the enclosing method, seen from a nested function that is analysed on its own
+            free_self = (not is_self and isinstance(v, ast.Name) and v.id in ("self", "cls") and self._name_key(v.id) not in st.env and fr.fn.parent is not None
+                         and v.id not in fr.fn.params and self.lookup(v.id, st) == ("free", v.id))
             is_super = isinstance(v, ast.Call) and isinstance(v.func, ast.Name) and v.func.id == "super"
-            if is_self or is_super:
+            if is_self or is_super or free_self:
                 static = self.p.resolve_callee(fr.fn, f, fr.self_cls)
                 if isinstance(static, tuple) and static[0] == "method":
                     static = None
@@ -1494,6 +1504,8 @@ class Interp:
             recv = None
             if isinstance(f, ast.Attribute):
                 recv = self.lookup("self", st) if ("L", fr.no, "self") in st.env else (self.lookup("cls", st) if ("L", fr.no, "cls") in st.env else ("param", "self"))
+                if isinstance(f.value, ast.Name) and self._name_key(f.value.id) not in st.env and self.lookup(f.value.id, st) == ("free", f.value.id):
+                    recv = ("free", f.value.id)
             callee_vals.append((("func", static.fq), st, (static, recv)))
         elif isinstance(static, ClassInfo):
             callee_vals.append((("cls", static.fq), st, None))
